@@ -13,6 +13,18 @@ from lcsa.sym import Evaluator, Path, ObjV, _Frame, FUNC_REG, subst_deep, fatom,
 from props.common import SEQ, SEQ_PATH, check_charge_map, check_api
 
 
+def _is_early_exit(s):
+    """`if <guard>: [messages;] return <number>` (the number possibly signed)"""
+    if not (isinstance(s, ast.If) and not s.orelse and s.body and isinstance(s.body[-1], ast.Return) and s.body[-1].value is not None):
+        return False
+    if not all(isinstance(x, ast.Expr) and isinstance(x.value, (ast.Call, ast.Constant)) for x in s.body[:-1]):
+        return False
+    v = s.body[-1].value
+    if isinstance(v, ast.UnaryOp) and isinstance(v.op, (ast.USub, ast.UAdd)):
+        v = v.operand
+    return isinstance(v, ast.Constant) and isinstance(v.value, (int, float)) and not isinstance(v.value, bool)
+
+
 def pair_sum(prog, f, ev):
     """normal form of `acc = 0; for u in range(..): for v in range(..): acc += term; return g(acc)`"""
     body = f.body()
@@ -32,8 +44,7 @@ def pair_sum(prog, f, ev):
             break
         if isinstance(s, ast.Assign) and isinstance(s.targets[0], ast.Name):
             env[s.targets[0].id] = ev.eval(s.value, env, fr)
-        elif isinstance(s, ast.If) and not s.orelse and len(s.body) == 1 and isinstance(s.body[0], ast.Return) and s.body[0].value is not None \
-                and isinstance(s.body[0].value, ast.Constant) and isinstance(s.body[0].value.value, (int, float)):
+        elif _is_early_exit(s):
             continue                       # an early answer on a guard: judged by early_exits(), the fold below is what runs otherwise
         elif not (isinstance(s, ast.Expr) and isinstance(s.value, ast.Constant)):
             raise Undecided("statement before the pair loop", f.loc(s))
@@ -148,10 +159,11 @@ def early_exits(ck, prog, f, construct):
     for s_ in body:
         if s_ is outer:
             break
-        if not (isinstance(s_, ast.If) and not s_.orelse and len(s_.body) == 1 and isinstance(s_.body[0], ast.Return) and isinstance(s_.body[0].value, ast.Constant)):
+        if not _is_early_exit(s_):
             continue
-        const = s_.body[0].value.value
-        judged.append(s_.body[0])
+        rv = s_.body[-1].value
+        const = -rv.operand.value if isinstance(rv, ast.UnaryOp) and isinstance(rv.op, ast.USub) else (rv.operand.value if isinstance(rv, ast.UnaryOp) else rv.value)
+        judged.append(s_.body[-1])
         ev = Evaluator(prog)
         c = ev.cond(s_.test, {"self": ObjV(f.cls)}, _Frame(f, 0))
         atoms = set()
@@ -170,7 +182,9 @@ def early_exits(ck, prog, f, construct):
         # refutation
         fams = {"two or more charges, all positive (every pair term is positive)": ([(2, 0, 0), (3, 0, 5), (10, 0, 1)], 1),
                 "two or more charges, all negative (every pair term is positive)": ([(0, 2, 0), (0, 3, 5), (0, 10, 1)], 1),
-                "exactly one positive and one negative charge (the only pair term is negative)": ([(1, 1, 0), (1, 1, 7)], -1)}
+                "exactly one positive and one negative charge (the only pair term is negative)": ([(1, 1, 0), (1, 1, 7)], -1),
+                "no charged residue at all (SCD is 0)": ([(0, 0, 1), (0, 0, 10)], 0),
+                "a single charged residue (no pair, SCD is 0)": ([(1, 0, 4), (0, 1, 9)], 0)}
         hit = None
         for fam, (reps, sgn) in fams.items():
             if (const > 0) - (const < 0) == sgn:
